@@ -236,14 +236,17 @@ Definition switch_to_flag (p : parser) (tok : string) (inverse : bool) (m : mach
   | _, _ => Err EAttr
   end)).
 
-(** [ParseMachine.set_arg_value] (repair 401bc73): [arg.value = value] inside
-    [try ... except ValueError: self.error(...)] -- a value the argument's kind
-    cannot convert is a ParseError.  Used by [see_value] and
-    [see_positional_arg] only; the other assignments ([flag.value = True/False],
-    the --help special case, [set_value(True, cast=False)]) are unguarded. *)
+(** [ParseMachine.set_arg_value] (repairs 401bc73, f5d4a34): [arg.value = value]
+    inside [try ... except (ValueError, TypeError): self.error(...)] -- a value
+    the argument's type cannot convert is a ParseError, whichever of the two
+    exceptions the type raises (int/float: ValueError; bytes, date: TypeError).
+    Used by [see_value] and [see_positional_arg] only; the other assignments
+    ([flag.value = True/False], the --help special case,
+    [set_value(True, cast=False)]) are unguarded. *)
 Definition checked (r : result machine) : result machine :=
   match r with
   | Err EValue => Err EParse
+  | Err EType => Err EParse
   | _ => r
   end.
 
@@ -388,8 +391,9 @@ Definition step (p : parser) (m : machine) (t : string) : result (machine * list
     AttributeError when [machine.context] was None, and a failing [int()]
     escaped as ValueError: findings F-C07b / F-C07a.  Before 9120dc5
     [complete_flag] tested [raw_value is None] (F-C07c / F-C07d); before dd95c66
-    the short-cluster split consulted the current context only (F-C18a).  All
-    "fixed" in KNOWN_FINDINGS.json; their witnesses stay in corpus/.) *)
+    the short-cluster split consulted the current context only (F-C18a); before
+    f5d4a34 a TypeError of the argument's type escaped (F-C07f).  All "fixed" in
+    KNOWN_FINDINGS.json; their witnesses stay in corpus/.) *)
 
 (** Fuel: the loop consumes one unit per token handled.  [None] = fuel
     exhausted (shown impossible for [body_fuel] in Proofs/C07_parser.v). *)
